@@ -52,6 +52,16 @@ func (e *Env) varBounds() map[*Term]ival {
 			}
 		case "not":
 			q := p.Args[0]
+			if q.Op == "or" {
+				for _, d := range q.Args {
+					atom(Not(d))
+				}
+				return
+			}
+			if q.Op == "not" {
+				atom(q.Args[0])
+				return
+			}
 			if (q.Op == "<" || q.Op == "<=") && q.Args[0].S == IntS {
 				a, b := q.Args[0], q.Args[1]
 				if q.Op == "<" { // not (a < b): b <= a
